@@ -187,17 +187,18 @@ def check_case(ctx, case):
                     continue
                 wp = f"{what} -> {S.show(rs)[:400]} at {S.show_point(p)}"
                 # (ii) exact value of R vs the true partial
-                rx = R.EXACT_WIDE.evaluate(rs, p)
-                if rx.status == "undef":
+                rx0 = R.EXACT.evaluate(rs, p)
+                if rx0.status == "undef":
                     ctx.violation("derivative_expression_undefined_on_domain",
-                                  f"{wp}: the original is defined here but the returned expression is not ({rx.undef[0]})")
+                                  f"{wp}: the original is defined here but the returned expression is not ({rx0.undef[0]})")
                     continue
+                rx = R.NORMAL_WIDE.evaluate(rs, p)
                 if rx.status in ("oos", "missing"):
                     ctx.count("points_skipped_result_" + rx.status)
                     if rx.status == "missing":
                         ctx.violation("foreign_variable", f"{wp}: result needs coordinates {sorted(rx.missing)} the original does not")
                     continue
-                if rx.status == "indet":
+                if rx.status != "def":
                     ctx.count("points_skipped_result_indeterminate")
                     continue
                 enc = R.slack_interval(d, da, 16)
@@ -205,7 +206,7 @@ def check_case(ctx, case):
                 ctx.count("points_judged")
                 if not R.intersects(rx.root.iv, enc):
                     ctx.violation("wrong_derivative_value",
-                                  f"{wp}: exact value of the returned expression is [{R.lo_float(rx.root.iv)!r}, {R.hi_float(rx.root.iv)!r}] "
+                                  f"{wp}: the value of the returned expression (folded constants within 4u) is [{R.lo_float(rx.root.iv)!r}, {R.hi_float(rx.root.iv)!r}] "
                                   f"but the true partial lies in [{R.lo_float(enc)!r}, {R.hi_float(enc)!r}]")
                     continue
                 # (i) the library's own evaluation of R
